@@ -2852,6 +2852,13 @@ def fixup_reshape(op, arch, nng):
     return op
 
 
+def _slice_per_channel(values, start, end):
+    # per-channel quantisation parameters are split with the channels, per-tensor ones (scalars or one element) are shared
+    if np.ndim(values) > 0 and np.shape(values)[-1] > 1:
+        return values[..., start:end]
+    return values
+
+
 def convert_conv_groups(op: Operation, arch, nng):
     """
     Convert convolution groups to a split followed by separate convolutions and then a concat.
@@ -2921,8 +2928,8 @@ def convert_conv_groups(op: Operation, arch, nng):
             # across all of the convolution groups
             conv_group_op_weights_shape = op.weights.shape[:-1] + [num_filters_cg]
             conv_group_op_weights_quant = op.weights.quantization.clone()
-            conv_group_op_weights_quant.scale_f32 = op.weights.quantization.scale_f32[..., cg_oc_start:cg_oc_end]
-            conv_group_op_weights_quant.zero_point = op.weights.quantization.zero_point[..., cg_oc_start:cg_oc_end]
+            conv_group_op_weights_quant.scale_f32 = _slice_per_channel(op.weights.quantization.scale_f32, cg_oc_start, cg_oc_end)
+            conv_group_op_weights_quant.zero_point = _slice_per_channel(op.weights.quantization.zero_point, cg_oc_start, cg_oc_end)
             conv_group_op.add_input_tensor(
                 create_const_tensor(
                     f"{op.weights.name}_cg{i}",
@@ -2940,8 +2947,8 @@ def convert_conv_groups(op: Operation, arch, nng):
             else:
                 conv_group_op_bias_shape = op.bias.shape[:-1] + [num_filters_cg]
                 conv_group_op_bias_quant = op.bias.quantization.clone()
-                conv_group_op_bias_quant.scale_f32 = op.bias.quantization.scale_f32[..., cg_oc_start:cg_oc_end]
-                conv_group_op_bias_quant.zero_point = op.bias.quantization.zero_point[..., cg_oc_start:cg_oc_end]
+                conv_group_op_bias_quant.scale_f32 = _slice_per_channel(op.bias.quantization.scale_f32, cg_oc_start, cg_oc_end)
+                conv_group_op_bias_quant.zero_point = _slice_per_channel(op.bias.quantization.zero_point, cg_oc_start, cg_oc_end)
                 conv_group_op.add_input_tensor(
                     create_const_tensor(
                         f"{op.bias.name}_cg{i}",
